@@ -37,6 +37,13 @@ def strict_rule(cx, cls):
     return len(calls) >= 1 and all(ic is False for ic in calls)
 
 
+def relaxed_rule(cx, cls):
+    """every parse of the envelope model `cls` was asked to IGNORE unrecognised elements whatever their Type (ignore_critical
+    True): unknown envelope headers are ignored, odd-typed ones included"""
+    calls = [ic for k, ic in cx.run.ghost.get('parse.rule', []) if k is cls]
+    return len(calls) >= 1 and all(ic is True for ic in calls)
+
+
 def summarised_strict(cx, cls):
     """used by result(): a summarised decoder call stands for a strict parse of its packet model"""
     cx.run.ghost.setdefault('parse.rule', []).append((cls, False))
@@ -176,6 +183,7 @@ class parse_lp_packet_v2(Contract):
         fs = [f for f in lp.LpPacketValue._encoded_fields if not isinstance(f, tm.ProcedureArgument)]
         heads = [f.type_num for f in fs[:-1]]
         return {'is_lp_packet_value': r.cls is lp.LpPacketValue,
+                'unknown_headers_of_any_type_are_ignored': relaxed_rule(cx, lp.LpPacketValue),
                 'fragmented_envelope_rejected': And(fi.isnone, fc.isnone),
                 'envelope_headers_declared_in_wire_order_fragment_last':
                     len(fs) >= 1 and fs[-1].type_num == lp.LpTypeNumber.FRAGMENT
@@ -184,6 +192,7 @@ class parse_lp_packet_v2(Contract):
     def result(c, cx, wire, with_tl):
         from pyvc.values import OptInt
         inst = LazyParsed(cx.run, lp.LpPacketValue, wire, {})
+        cx.run.ghost.setdefault('parse.rule', []).append((lp.LpPacketValue, True))     # a summarised call stands for a relaxed parse
         inst.cache['frag_index'] = OptInt(True, 0)
         inst.cache['frag_count'] = OptInt(True, 0)
         cx.run.ghost['lp.parsed'] = inst          # ghost: the envelope as decoded, for the postconditions of its callers
@@ -293,6 +302,7 @@ class parse_lp_packet(Contract):
         from pyvc.values import OptInt
         reason, frag = result
         out = {'reason_is_optional_int': reason is None or isinstance(reason, (OptInt, int)) or is_symint(reason),
+               'unknown_headers_of_any_type_are_ignored': relaxed_rule(cx, lp.LpPacketValue),
                'fragment_is_view_of_wire': frag is None or (isinstance(frag, View) and Eq(frag.cell, wire.cell) is True)}
         # the reason is precisely what the envelope carries: None without a Nack header, the header's code, 0 if it has none
         inst = cx.run.ghost.get('lp.parsed')
@@ -315,6 +325,7 @@ class parse_lp_packet(Contract):
         from contracts.parse_summary import sub_view
         from pyvc.values import OptInt
         run = cx.run
+        run.ghost.setdefault('parse.rule', []).append((lp.LpPacketValue, True))     # a summarised call stands for a relaxed parse
         v = run.fresh_int('nack_reason')
         run.assume(z3.And(v >= 0, v < 2 ** 64))
         fk = run.choose([('fragment=None', True), ('fragment', True)], 'fragment')
@@ -373,7 +384,7 @@ class parse_network_nack(Contract):
 
     def post(c, cx, result, wire, with_tl):
         ok = isinstance(result, tuple) and len(result) == 2
-        out = {'returns_a_pair': ok}
+        out = {'returns_a_pair': ok, 'unknown_headers_of_any_type_are_ignored': relaxed_rule(cx, lp.LpPacketValue)}
         if ok:
             reason, frag = result
             out['without_nack_header_both_none_with_one_the_fragment_of_this_envelope'] = (reason is None and frag is None) or \
